@@ -5,6 +5,9 @@ package seam
 // SetChooser is a no-op without the seam overlay.
 func SetChooser(f func(n int, site string) int) {}
 
+// SetOrderHook is a no-op without the seam overlay.
+func SetOrderHook(f func(n int, site string) []int) {}
+
 // CountHits is a no-op without the seam overlay.
 func CountHits(on bool) map[string]int { return map[string]int{} }
 
